@@ -36,6 +36,9 @@ def hostSetterPort (dflt : Nat) (r : Rec) (portBuffer : Bytes) : Rec :=
       if p > 65535 then r
       else { r with port := if (dflt == 0 && p == 0) || dflt != p then some p else none }
 
+/-- `host = value` -/
+def Rec.withHost (r : Rec) (h : Bytes) : Rec := { r with host := some h }
+
 /-- `url::set_host_or_hostname<hostnameOnly>(input)`; `ty` = scheme type (6 = file), `dflt` = `scheme_default_port()` -/
 def setHostR (hostnameOnly : Bool) (idna : Spec.Idna) (L ty dflt : Nat) (r : Rec) (v : Bytes) : Rec × Bool :=
   if r.opq then (r, false) else
@@ -49,19 +52,19 @@ def setHostR (hostnameOnly : Bool) (idna : Spec.Idna) (L ty dflt : Nat) (r : Rec
       else if hostnameOnly then (r, false)
       else match parseHost idna r.special hostView with
         | none => (r, false)
-        | some (h, _) => sized (hostSetterPort dflt { r with host := some h } (newHost.drop (location + 1)))
+        | some (h, _) => sized (hostSetterPort dflt (r.withHost h) (newHost.drop (location + 1)))
     else
       if hostView.isEmpty && r.special then (r, false)
       else if hostView.isEmpty && (r.hasCredentials || r.port.isSome) then (r, false)
-      else if hostView.isEmpty && !r.special then sized { r with host := some [] }
+      else if hostView.isEmpty && !r.special then sized (r.withHost [])
       else match parseHost idna r.special hostView with
         | none => (r, false)
-        | some (h, _) => sized { r with host := some h }
+        | some (h, _) => sized (r.withHost h)
   else
     let fileHost := newHost.takeWhile (fun c => !(c == 0x2F || c == 0x5C || c == 0x3F))
-    if fileHost.isEmpty then sized { r with host := some [] }
+    if fileHost.isEmpty then sized (r.withHost [])
     else match parseHost idna r.special fileHost with
       | none => (r, false)
-      | some (h, _) => sized { r with host := some (if h == Spec.bLocalhost then [] else h) }
+      | some (h, _) => sized (r.withHost (if h == Spec.bLocalhost then [] else h))
 
 end AdaVerif.Model.UrlRec
